@@ -23,3 +23,23 @@ def run(prop, tier, seed):
 
 
 EXTRA = {}
+
+kanirun.META["C16"] = {
+    "bounds": "byte strings of length <= 4 (quick) / <= 8 (thorough) for SharedBytes constructors, <= 3 handles dropped in every order; "
+              "all byte strings of length <= 4 for from_utf8; pairs of ASCII strings <= 3 bytes for Eq/Ord/Hash; model hasher with symbolic seed",
+    "outside": "longer buffers; serde visitors (feature off in the verified build); refcount interleavings are decided by the E2 queries; weak-memory executions",
+    "assumptions": COMMON_ASSUME[:2] + ["CBMC's allocator model (malloc never fails, dealloc layout check via Kani's __rust_dealloc model) stands for the real allocator"],
+}
+
+kanirun.META["C06"] = {
+    "bounds": "entry level: one dynamic entry holding (u64,u64), all sequences of <= 5 operations from {write, watcher1.reloaded, watcher2.reloaded, reloaded_global (typed/untyped), fresh watcher}, all 64-bit values; "
+              "graph level: <= 3 assets, <= 2 file keys, all dependency masks; watcher/increment interleavings by E2",
+    "outside": "edits never notified on a real filesystem; longer sequences; more than 2 watchers",
+    "assumptions": COMMON_ASSUME,
+}
+
+kanirun.META["C07"] = {
+    "bounds": "one dynamic entry, value types (u64,u64) and a drop-tracked value; every guard shape (plain, map, try_map Ok/Err, downcast Ok/Err, two guards); one write; all 64-bit contents",
+    "outside": "the std RwLock build (feature parking_lot off); real preemption and the hardware memory model (reader/writer exclusion of the lock is trusted); local-mode clause (d) is decided in the C08 protocol harness",
+    "assumptions": COMMON_ASSUME + ["parking_lot::RwLock provides reader/writer exclusion (trusted); the model reports would-block instead of blocking"],
+}
